@@ -184,6 +184,8 @@ func runProperty(prop, tier string) int {
 	}
 	var results []*harnessResult
 	var inconclusive []string
+	reachedInFile := map[string]bool{} // "<file>|<label>" reached by some harness of that file
+	ranInFile := map[string]int{}
 	for _, h := range l.harnesses {
 		if only != nil && !only.MatchString(h.Name()) {
 			continue
@@ -229,8 +231,16 @@ func runProperty(prop, tier string) int {
 		}
 		// vacuity: every label in the harness file that belongs to this harness must be reached.
 		file := l.prog.Fset.Position(h.Pos()).Filename
+		own := map[string]bool{}
+		for _, lab := range l.fnLabels[file+"|"+r.Name] {
+			own[lab] = true
+		}
+		for lab := range r.Reached {
+			reachedInFile[file+"|"+lab] = true
+		}
+		ranInFile[file]++
 		for _, lab := range l.labels[file] {
-			if !strings.HasPrefix(lab, r.Name+":") && !labelBelongs(l, file, lab, r.Name) {
+			if !own[lab] && !strings.HasPrefix(lab, r.Name+":") && !labelBelongs(l, file, lab, r.Name) {
 				continue
 			}
 			if !r.Reached[lab] {
@@ -239,6 +249,29 @@ func runProperty(prop, tier string) int {
 		}
 		if r.Paths == 0 {
 			inconclusive = append(inconclusive, fmt.Sprintf("%s: no feasible completed path", r.Name))
+		}
+	}
+
+	// vacuity of labels in helper functions (shared by the harnesses of a file): some harness of
+	// the file must reach each of them — checked when every harness of the file was run.
+	for key, labs := range l.fnLabels {
+		file, fname, _ := strings.Cut(key, "|")
+		if strings.HasPrefix(fname, "Verif") {
+			continue
+		}
+		total := 0
+		for _, h := range l.harnesses {
+			if l.prog.Fset.Position(h.Pos()).Filename == file {
+				total++
+			}
+		}
+		if total == 0 || ranInFile[file] != total {
+			continue
+		}
+		for _, lab := range labs {
+			if !reachedInFile[file+"|"+lab] {
+				inconclusive = append(inconclusive, fmt.Sprintf("%s: vacuous: label %q (in helper %s) never reached on a feasible path", filepath.Base(file), lab, fname))
+			}
 		}
 	}
 
